@@ -65,10 +65,6 @@ Definition user_eqb (a b : user) : bool :=
   | _, _ => false
   end.
 
-(* `if group:` - None and the empty string are falsy *)
-Definition group_truthy (g : option string) : bool :=
-  match g with None => false | Some s => negb (String.eqb s "") end.
-
 (* ------------------------------------------------------------------ the three methods *)
 
 (* get_relevant_policy_section(policy_name, group) *)
@@ -77,21 +73,19 @@ Definition relevant_section (P : policies) (pn : string) (g : option string) : o
   | None => None                                            (* .get(policy_name) is None *)
   | Some b =>
     if bundle_falsy b then None                             (* `if not policy_bundle` on {} *)
-    else if group_truthy g then
-      match groups b with
-      | None => None                                        (* `if not groups_policy_bundle` *)
-      | Some gs =>
-        if is_nil gs then None
-        else match g with
-             | None => None                                 (* unreachable: group_truthy *)
-             | Some gname =>
-               match slookup gname gs with
-               | None => None                               (* `if not group_policy` *)
-               | Some s => if is_nil s then None else Some s
-               end
-             end
-      end
-    else preset b                                           (* policy_bundle.get('preset') *)
+    else match g with
+         | Some gname =>                                    (* `if group is not None:` (every group name, "" included) *)
+           match groups b with
+           | None => None                                   (* `if not groups_policy_bundle` *)
+           | Some gs =>
+             if is_nil gs then None
+             else match slookup gname gs with
+                  | None => None                            (* `if not group_policy` *)
+                  | Some s => if is_nil s then None else Some s
+                  end
+           end
+         | None => preset b                                 (* policy_bundle.get('preset') *)
+         end
   end.
 
 (* is_allowed(policy_name, session_user, session_group, object_owner, object_type, operation) *)
@@ -158,20 +152,9 @@ Definition granted_spec (P : policies) (pn : string) (id : identity)
             exists s, preset b = Some s /\ section_grants s (id_user id) owner ot op)
     end.
 
-(* every group of the identity has a non-empty name (finding C03-empty-group-name:
-   the engine treats the group "" as "no group information") *)
-Definition wf_identity (id : identity) : Prop :=
-  match id_groups id with None => True | Some gs => ~ In "" gs end.
-
-Definition wf_identityb (id : identity) : bool :=
-  match id_groups id with None => true | Some gs => negb (existsb (String.eqb "") gs) end.
-
-(* The section the CODE consults for one group value (exact, including the
-   falsy-group rule); used by the exact characterisation. *)
+(* The section the CODE consults for one group value; used by the exact characterisation. *)
 Definition code_section (b : bundle) (g : option string) (s : section) : Prop :=
   match g with
   | None => preset b = Some s
-  | Some gname =>
-      if String.eqb gname "" then preset b = Some s
-      else exists gm, groups b = Some gm /\ slookup gname gm = Some s
+  | Some gname => exists gm, groups b = Some gm /\ slookup gname gm = Some s
   end.
